@@ -32,7 +32,7 @@ def _alarm(signum, frame):
 signal.signal(signal.SIGALRM, _alarm)
 
 
-def make_traj(T, n_atoms):
+def make_traj(T, n_atoms, cell=True):
     top = md.Topology()
     ch = top.add_chain()
     for a in range(n_atoms):
@@ -43,8 +43,9 @@ def make_traj(T, n_atoms):
         for a in range(n_atoms):
             xyz[i, a] = ((i + 1) * 0.1, (a + 1) * 0.1, 0.05)
     t = md.Trajectory(xyz, top, time=np.arange(T, dtype=np.float32))
-    t.unitcell_lengths = np.array([[i + 2.0] * 3 for i in range(T)], dtype=np.float32)
-    t.unitcell_angles = np.full((T, 3), 90.0, dtype=np.float32)
+    if cell:
+        t.unitcell_lengths = np.array([[i + 2.0] * 3 for i in range(T)], dtype=np.float32)
+        t.unitcell_angles = np.full((T, 3), 90.0, dtype=np.float32)
     return t
 
 
@@ -56,8 +57,10 @@ def write_arc(path, T, n_atoms):
                 fh.write("%6d  C  %18.10f %18.10f %18.10f %5d\n" % (a + 1, (i + 1) * 1.0, (a + 1) * 1.0, 0.5, 1))
 
 
-def make_files(T, n_atoms, formats, d, tag=""):
-    t = make_traj(T, n_atoms)
+def make_files(T, n_atoms, formats, d, tag="", cell=True):
+    t = make_traj(T, n_atoms, cell)
+    if not cell:
+        tag = tag + "nocell"
     paths = {}
     for fmt in formats:
         p = os.path.join(d, "f%s_%d_%d.%s" % (tag, T, n_atoms, fmt))
@@ -65,7 +68,11 @@ def make_files(T, n_atoms, formats, d, tag=""):
             if fmt == "arc":
                 write_arc(p, T, n_atoms)
             else:
-                t.save(p)
+                try:
+                    t.save(p)
+                except (ValueError, TypeError):
+                    # the format cannot be written without a cell (dtr, lammpstrj): use the cell-carrying trajectory
+                    make_traj(T, n_atoms, True).save(p)
         paths[fmt] = p
     top = os.path.join(d, "top_%d.pdb" % n_atoms)
     if not os.path.exists(top):
@@ -230,13 +237,13 @@ def main():
     out = {"cursor": [], "load": []}
     cache = {}
 
-    def files(T):
-        if T not in cache:
-            cache[T] = make_files(T, n_atoms, req["formats"], d)
-        return cache[T]
+    def files(T, cell=True):
+        if (T, cell) not in cache:
+            cache[(T, cell)] = make_files(T, n_atoms, req["formats"], d, cell=cell)
+        return cache[(T, cell)]
 
     for c in req.get("cursor", []):
-        paths, top = files(c["T"])
+        paths, top = files(c["T"], c.get("cell", True))
         out["cursor"].append(run_cursor(c, paths, n_atoms))
     for c in req.get("load", []):
         paths, top = files(c["T"])
